@@ -124,7 +124,7 @@ func main() {
 	g.lockObls = true
 	tmo := *timeout
 	if tmo == 0 {
-		tmo = 20
+		tmo = 30
 		if *tier == "thorough" {
 			tmo = 90
 		}
@@ -140,7 +140,7 @@ func main() {
 		if err != nil {
 			fail("scratch: %v", err)
 		}
-		defer os.RemoveAll(scratch)
+		cleanupScratch = scratch
 	} else {
 		os.MkdirAll(scratch, 0o755)
 	}
@@ -292,6 +292,10 @@ func main() {
 	if len(violations) > 0 {
 		exit = 1 // failed obligations are reported even if other obligations hit engine errors (vacuity can only hide failures)
 	}
+	vcOf := map[*Obligation]*VC{}
+	for _, it := range items {
+		vcOf[it.o] = it.vc
+	}
 	for _, o := range violations {
 		dir := filepath.Join(*replays, pid)
 		os.MkdirAll(dir, 0o755)
@@ -299,8 +303,8 @@ func main() {
 		rep := map[string]any{"property": pid, "obligation": o.Name, "kind": o.Kind, "status": o.Status, "clause": o.Src, "position": o.Pos,
 			"solver_output": o.Output, "model": o.Model, "function": o.Func}
 		suffix := " no-failing-input-found"
-		if o.Status == "refuted" && o.Kind != "census" {
-			if ok, info := g.tryReplay(o, pid, rep); ok {
+		if (o.Status == "refuted" || o.Status == "undischarged") && (o.Kind == "nopanic" || o.Kind == "ensures" || o.Kind == "returns") {
+			if ok, info := g.tryReplay(oblItem{vcOf[o], o}, pid, rep); ok {
 				suffix = ""
 				rep["replay"] = info
 			} else {
@@ -322,13 +326,13 @@ func main() {
 			"property_id": pid, "tier": *tier, "seed": *seed, "level": "proof",
 			"coverage": map[string]any{
 				"obligations": total, "discharged": discharged,
-				"checker_cmd":  strings.Join(os.Args, " "),
-				"trusted_base": tb,
-				"samples":      samples,
+				"checker_cmd":              strings.Join(os.Args, " "),
+				"trusted_base":             tb,
+				"samples":                  samples,
 				"functions_under_contract": funcs,
 				"vacuity_covers":           covers, "vacuity_covers_ok": coversOK,
 				"solver_time_s": float64(solverMs) / 1000.0, "solve_wall_s": solveS, "load_s": loadS, "vcgen_s": genS,
-				"back_ends":     "z3-new 5.1.0, z3 4.8.12, cvc5 1.0 raced per obligation; census/binding obligations decided statically over go/ssa",
+				"back_ends":      "z3-new 5.1.0, z3 4.8.12, cvc5 1.0 raced per obligation; census/binding obligations decided statically over go/ssa",
 				"known_findings": knownHit,
 				"engine_notes":   notes,
 				"contract_files": files,
@@ -345,8 +349,13 @@ func main() {
 	}
 	fmt.Fprintf(os.Stderr, "govc: %s %s: %d/%d obligations discharged, %d covers ok/%d, %d violations, %d engine errors, %.1fs (load %.1fs gen %.1fs solve %.1fs)\n",
 		pid, *tier, discharged, total, coversOK, covers, len(violations), len(engineErrs), time.Since(t0).Seconds(), loadS, genS, solveS)
+	if cleanupScratch != "" {
+		os.RemoveAll(cleanupScratch) // os.Exit skips deferred calls
+	}
 	os.Exit(exit)
 }
+
+var cleanupScratch string
 
 func trustedBase(cs *Contracts, notes []string) []string {
 	var tb []string
